@@ -1977,9 +1977,10 @@ class RepeatingEngine(Engine):
             def suicide(err=None):
                 self._suicide = True
                 self.log.info("Will proceed to terminate because of kill-after-producers-done-delay")
-                if self.process is not None:
+                process = self.process
+                if process is not None and process.isAlive():
                     # VV: RepeatingEngine must be currently running, signal it to stop
-                    self.process.kill()
+                    process.kill()
                 else:
                     # VV: RepeatingEngine must be in-between consecutive invocations
                     #     kill it and mark it as finished
